@@ -2,12 +2,17 @@
 //! Deterministic simulator for jeff-k/bio-seq properties C14 and C15 (see /verif/DESIGN.md).
 //! Exit codes: 0 = held, 1 = violation found in this run, 2 = harness error.
 mod c14;
-#[cfg(not(miri))]
 mod c15;
-#[cfg(not(miri))]
 mod entropy;
+mod noise;
 mod oracle;
 mod prng;
+
+/// The thread implementation the concurrent scenarios run on: std's here (natively and under
+/// Miri); the shuttle engine substitutes shuttle's.
+mod rt {
+    pub use std::thread;
+}
 
 use std::collections::HashMap;
 
@@ -70,8 +75,9 @@ fn main() {
             let vs = num(&m, "verif-seed").unwrap_or_else(|| harness_error("--verif-seed"));
             let from = num(&m, "from").unwrap_or(0);
             let to = num(&m, "to").unwrap_or_else(|| harness_error("--to"));
+            let tag = if m.get("prop").map(String::as_str) == Some("c15") { prng::TAG_C15M } else { prng::TAG_C14M };
             for i in from..to {
-                let rs = prng::run_seed(vs, prng::TAG_C14M, i);
+                let rs = prng::run_seed(vs, tag, i);
                 let mut r = prng::Rng::new(rs ^ 0x4d49_5249);
                 let miri_seed = r.next_u64() % 1_000_000;
                 let rate = ["0.01", "0.05", "0.2", "0.5"][r.below(4)];
@@ -81,6 +87,15 @@ fn main() {
         "c14-miri" => {
             let seed = num(&m, "seed").unwrap_or_else(|| harness_error("--seed"));
             let code = c14::miri_scenario::main(
+                seed,
+                num(&m, "threads").map(|x| x as usize),
+                num(&m, "ops").map(|x| x as usize),
+            );
+            std::process::exit(code);
+        }
+        "c15-conc" => {
+            let seed = num(&m, "seed").unwrap_or_else(|| harness_error("--seed"));
+            let code = c15::conc::main(
                 seed,
                 num(&m, "threads").map(|x| x as usize),
                 num(&m, "ops").map(|x| x as usize),
